@@ -965,7 +965,7 @@ class Reach:
                 # it holds the computed value - state the edge propositions about that value instead of about phi(const|value)
                 ref = self._refine(t[1][1], val)
                 if ref:
-                    props = {s_: [p_.replace(ref[0], ref[1]) for p_ in ps_] for s_, ps_ in props.items()}
+                    props = {s_: list(ps_) + [p_.replace(ref[0], ref[1]) for p_ in ps_ if ref[0] in p_] for s_, ps_ in props.items()}
             for s in succs:
                 if fn.blocks[s]['cleanup']:
                     continue
